@@ -32,6 +32,8 @@ enum Mode {
 }
 
 struct Sink {
+    /// number of write calls so far, readable while the writer borrows the sink
+    ncalls: std::rc::Rc<std::cell::Cell<usize>>,
     mode: Mode,
     calls: Vec<String>,
     accepted: String,
@@ -43,6 +45,7 @@ impl fmt::Write for Sink {
     fn write_str(&mut self, s: &str) -> fmt::Result {
         let k = self.calls.len();
         self.calls.push(s.to_string());
+        self.ncalls.set(k + 1);
         if self.failed_calls > 0 {
             self.calls_after_first_failure += 1;
         }
@@ -132,7 +135,8 @@ struct WriteResult {
 }
 
 fn write_doc(doc: &Doc, mode: Mode) -> WriteResult {
-    let mut sink = Sink { mode, calls: Vec::new(), accepted: String::new(), failed_calls: 0, calls_after_first_failure: 0 };
+    let ncalls = std::rc::Rc::new(std::cell::Cell::new(0usize));
+    let mut sink = Sink { ncalls: ncalls.clone(), mode, calls: Vec::new(), accepted: String::new(), failed_calls: 0, calls_after_first_failure: 0 };
     let mut link_results = Vec::new();
     let mut calls_at_link_end = Vec::new();
     let final_result;
@@ -154,7 +158,7 @@ fn write_doc(doc: &Doc, mode: Mode) -> WriteResult {
                 };
             }
             link_results.push(a.finish());
-            calls_at_link_end.push(0);
+            calls_at_link_end.push(ncalls.get());
         }
         final_result = w.finish();
     }
@@ -162,15 +166,6 @@ fn write_doc(doc: &Doc, mode: Mode) -> WriteResult {
 }
 
 /// Number of sink calls the fault-free writer has made by the end of each
-/// link (prefix documents written separately).
-fn calls_per_link(doc: &Doc) -> Vec<usize> {
-    let mut v = Vec::new();
-    for i in 1..=doc.links.len() {
-        let d = Doc { newlines: doc.newlines, links: doc.links[..i].to_vec() };
-        v.push(write_doc(&d, Mode::None).sink.calls.len());
-    }
-    v
-}
 
 /// What the document says, link by link: (target, [(key, value)]).
 fn doc_meaning(doc: &Doc) -> Vec<(String, Vec<(String, String)>)> {
@@ -223,14 +218,16 @@ fn read_back(text: &str) -> Result<Vec<(String, Vec<(String, String)>)>, String>
             i += 1;
             let mut key = String::new();
             while let Some(ch) = c.get(i) {
-                if *ch == '=' {
+                if *ch == '=' || *ch == ';' || *ch == ',' {
                     break;
                 }
                 key.push(*ch);
                 i += 1;
             }
             if c.get(i) != Some(&'=') {
-                return Err(format!("attribute {:?} without '='", key));
+                // the valueless form `;key` (RFC 6690 link-extension)
+                attrs.push((key.trim_end().to_string(), String::new()));
+                continue;
             }
             i += 1;
             let mut val = String::new();
@@ -260,10 +257,18 @@ fn read_back(text: &str) -> Result<Vec<(String, Vec<(String, String)>)>, String>
                     val.push(*ch);
                     i += 1;
                 }
+                // white space is never part of an unquoted value
+                val = val.trim_end_matches(|ch| ch == ' ' || ch == '\n' || ch == '\r' || ch == '\t').to_string();
+            }
+            while matches!(c.get(i), Some(' ') | Some('\n') | Some('\r') | Some('\t')) {
+                i += 1;
             }
             attrs.push((key, val));
         }
         links.push((target, attrs));
+        while matches!(c.get(i), Some(' ') | Some('\n') | Some('\r') | Some('\t')) {
+            i += 1;
+        }
         match c.get(i) {
             None => return Ok(links),
             Some(',') => {
@@ -349,7 +354,9 @@ pub fn run(ch: &mut Ch, verbose: bool) -> Outcome {
             out.violations.push(Violation::new("C18", "ok-complete", format!("fault-free output ({} bytes, {} links, newlines={}) is not the complete document: {}", full.len(), doc.links.len(), doc.newlines, why)).with_sig("incomplete"));
         }
     }
-    let per_link = calls_per_link(&doc);
+    // number of sink calls the fault-free writer has made when each link's
+    // attribute writer is finished
+    let per_link = clean.calls_at_link_end.clone();
     if verbose {
         trace.push(format!("document ({} links, newlines={}): {:?}", doc.links.len(), doc.newlines, full));
         trace.push(format!("fault-free write calls ({}): {:?}", n, clean.sink.calls));
@@ -446,6 +453,5 @@ pub fn run(ch: &mut Ch, verbose: bool) -> Outcome {
             J::Arr(doc.links.iter().map(|(t, a)| J::s(format!("{:?} {:?}", t, a))).collect()),
         ));
     }
-    let _ = clean.calls_at_link_end;
     out
 }
